@@ -264,7 +264,7 @@ Proof.
   rewrite pid_index_in.
   destruct (pid_index pid (ms_streams s)) as [j|] eqn:E.
   - pose proof (pid_index_nonneg _ _ _ E) as Hj.
-    replace (0 + j =? -1) with false by lia.
+    match goal with |- (if ?c then _ else _) = _ => replace c with false by lia end.
     unfold remove_view, pmt_of, set_streams_es, gr_set, ge_del, ge_get.
     cbn [ms_streams ms_pcr_pid ms_pmt_updated ms_next_pid ms_es ms_removed pmt_data_of PMTData_ElementaryStreams
          PMTData_PCRPID PMTData_ProgramDescriptors PMTData_ProgramNumber].
@@ -423,7 +423,9 @@ Lemma pmt_loop1_is_model l : forall h,
 Proof.
   induction l as [|e r IH]; intros; [reflexivity|].
   cbn [Muxer_generatePMT_loop1 stream_pid_in existsb].
-  destruct (PMTElementaryStream_ElementaryPID e =? PMTData_PCRPID pmt); [reflexivity|]. apply IH.
+  destruct (PMTElementaryStream_ElementaryPID e =? PMTData_PCRPID pmt); [|apply IH].
+  (* with or without the break *)
+  first [reflexivity | rewrite IH; unfold stream_pid_in; cbn [orb]; destruct (existsb _ r); reflexivity].
 Qed.
 
 Lemma pmt_loop2_is_model l : forall h size,
@@ -461,7 +463,10 @@ Proof.
   rewrite pmt_loop2_is_model, pmt_loop3_is_model.
   unfold pmt_of at 1 2. cbn [pmt_data_of PMTData_ElementaryStreams PMTData_ProgramDescriptors fold_left].
   fold (pmt_size (ms_streams s)).
-  destruct (pmt_size (ms_streams s) >? 1021 - 9); [rewrite set_tables_same; reflexivity|].
+  (* the bound, however the source spells the constant *)
+  repeat match goal with |- context [pmt_size ?l >? ?b] =>
+    let v := eval vm_compute in b in progress change b with v end.
+  destruct (pmt_size (ms_streams s) >? 1012); [rewrite set_tables_same; reflexivity|].
   unfold next_version.
   destruct (ms_pmt_updated s) eqn:Epm;
     match goal with |- context [write_psi_data ?d] =>
@@ -525,24 +530,29 @@ Lemma retransmit_of_generated s force pb mb buf : pa_res (snd (retransmit_tables
 Proof.
   unfold retransmit_tables, Muxer_retransmitTables.
   cbn [ms_retransmit ms_period set_retransmit].
-  destruct (negb force && (ms_retransmit s + 1 <? ms_period s)).
-  { intros _. cbn [fst snd mout_of_part pa_res pa_n pa_groups groups_of map terr_res err_res].
-    rewrite set_tables_same. split; reflexivity. }
-  set (s1 := set_retransmit s (ms_retransmit s + 1)).
   intros NP.
-  assert (NP1 : pa_res (snd (write_tables s1)) <> Panic).
-  { destruct (write_tables s1) as [s2 [[u|c|] n g p]]; cbn [snd pa_res] in *; congruence. }
-  pose proof (write_tables_of_generated s1 pb mb buf NP1) as W.
-  subst s1. cbn [pmt_of ms_streams ms_pcr_pid ms_pmt_updated ms_pmt_version ms_pmt_cc ms_pat_version ms_pat_cc ms_pm_updated set_retransmit] in W.
-  fold (pmt_of s) in W.
-  destruct (Muxer_WriteTables _ _ _ _ _ _ _ _ _ _ _ _ _ _ _ _ _ _ _) as [[[[[[[[[[[w pmu] pmtu] patv] pmtv] patcc] pmtcc] b1] b2] b3] n] e].
-  destruct W as [W1 W2]. rewrite terr_nil.
-  destruct (write_tables (set_retransmit s (ms_retransmit s + 1))) as [s2 [r2 n2 g2 p2]].
-  cbn [fst snd mout_of_part pa_res pa_n pa_groups] in *. inversion W2; subst.
-  destruct (terr_res e) as [u|c|] eqn:Ee; cbn [negb fst snd mout_of_part pa_res pa_n pa_groups terr_res err_res]; rewrite ?Ee.
-  - destruct u. split; reflexivity.
-  - split; reflexivity.
-  - split; reflexivity.
+  (* the atoms of the condition, whatever its boolean shape in the source *)
+  unfold Z.ltb, Z.geb, Z.leb, Z.gtb in *.
+  destruct force; destruct (ms_retransmit s + 1 ?= ms_period s); cbn [negb andb orb] in *;
+  first
+  [ (* not due: only the counter moved *)
+    cbn [fst snd mout_of_part pa_res pa_n pa_groups groups_of map terr_res err_res];
+    rewrite set_tables_same; split; reflexivity
+  | (* due: WriteTables, the counter restarts only when it succeeded *)
+    assert (NP1 : pa_res (snd (write_tables (set_retransmit s (ms_retransmit s + 1)))) <> Panic)
+      by (destruct (write_tables (set_retransmit s (ms_retransmit s + 1))) as [s2 [[u|c|] n g p]];
+          cbn [snd pa_res] in *; congruence);
+    pose proof (write_tables_of_generated (set_retransmit s (ms_retransmit s + 1)) pb mb buf NP1) as W;
+    cbn [pmt_of ms_streams ms_pcr_pid ms_pmt_updated ms_pmt_version ms_pmt_cc ms_pat_version ms_pat_cc ms_pm_updated set_retransmit] in W;
+    fold (pmt_of s) in W;
+    destruct (Muxer_WriteTables _ _ _ _ _ _ _ _ _ _ _ _ _ _ _ _ _ _ _)
+      as [[[[[[[[[[[w pmu] pmtu] patv] pmtv] patcc] pmtcc] b1] b2] b3] n] e];
+    destruct W as [W1 W2]; rewrite terr_nil;
+    destruct (write_tables (set_retransmit s (ms_retransmit s + 1))) as [s2 [r2 n2 g2 p2]];
+    cbn [fst snd mout_of_part pa_res pa_n pa_groups] in *; inversion W2; subst;
+    let Ee := fresh "Ee" in
+    destruct (terr_res e) as [[]|c|] eqn:Ee;
+    cbn [negb fst snd mout_of_part pa_res pa_n pa_groups terr_res err_res]; rewrite ?Ee; split; reflexivity ].
 Qed.
 
 (* ---- WriteData up to its packetisation loop ---- *)
